@@ -229,6 +229,63 @@ def main():
             else:
                 ck.nontrivial(ln)
 
+    # ---------------- stream F: types that differ in one detail only and live in the same file (they must not be identified), and
+    #                  instantiations whose member types depend on a non-type template argument ------------------------------------------
+    nF = ck.scale(60, 800)
+    for i in range(nF):
+        ptypes = rng.choice(['const char *fmt', 'int level', 'double a, int b', 'S *s'])
+        ret = rng.choice(['int', 'void', 'double'])
+        shapes = [('va%d' % i, '%s (*va%d)(%s, ...);' % (ret, i, ptypes)), ('pl%d' % i, '%s (*pl%d)(%s);' % (ret, i, ptypes))]
+        rng.shuffle(shapes)
+        fnames = [('fva%d' % i, '%s fva%d(%s, ...);' % (ret, i, ptypes)), ('fpl%d' % i, '%s fpl%d(%s);' % (ret, i, ptypes))]
+        rng.shuffle(fnames)
+        n1, n2 = rng.choice([2, 3, 8]), rng.choice([4, 5, 16])
+        text = T.PREAMBLE + ''.join('extern ' + d_ + '\n' for _, d_ in shapes) + ''.join(d_ + '\n' for _, d_ in fnames) + \
+            'extern int ar%d_a[%d];\nextern int ar%d_b[%d];\n' % (i, n1, i, n2)
+        rc, out, err = parse_file_decls(b, wd, text, 'near.h')
+        ck.count()
+        ck.dist('near-identical-types')
+        rp = {'kind': 'spec', 'files': {'d.h': text}, 'cmd': 'parse_file d.h', 'printed': out[-600:]}
+        if rc != 0:
+            ck.spec_failure('reject:variadic-function-type', 'parse_file rejects: ' + err[-200:], rp)
+            continue
+        okF = True
+        for nm, d_ in shapes + fnames:
+            ln = [l for l in out.splitlines() if re.search(r'\b%s\b' % nm, l)]
+            if not ln or (('...' in d_) != ('...' in ln[0])):
+                okF = False
+                ck.spec_failure('print:ellipsis', '"%s" is re-printed as "%s"' % (d_, ln[0].strip() if ln else None), rp)
+        for nm, n_ in (('ar%d_a' % i, n1), ('ar%d_b' % i, n2)):
+            ln = [l for l in out.splitlines() if re.search(r'\b%s\b' % nm, l)]
+            if not ln or '[%d]' % n_ not in ln[0]:
+                okF = False
+                ck.spec_failure('print:array-bound', 'array %s[%d] is re-printed as "%s"' % (nm, n_, ln[0].strip() if ln else None), rp)
+        if okF:
+            ck.nontrivial('near%d' % i)
+    from vlib import dbfile
+    for i in range(ck.scale(12, 120)):
+        n = rng.choice([2, 3, 7, 16])
+        m = rng.choice([4, 5, 9])
+        tp = rng.choice(['char', 'int', 'double'])
+        text = ('template<int N> struct Buf {\n__published:\n  %s data[N];\n  int fill(%s (&out)[N]);\n};\ntemplate<class T, int N> struct Arr {\n__published:\n  T items[N];\n};\n'
+                'typedef Buf<%d> BufA;\ntypedef Arr<%s, %d> ArrA;\n' % (tp, tp, n, tp, m))
+        open(os.path.join(wd, 'tpl.h'), 'w').write(text)
+        p = vlib.sh([b['interrogate'], '-oc', 'tpl.cxx', '-od', 'tpl.in', '-module', 'm', '-library', 'l', '-c', '-fnames', 'tpl.h'], cwd=wd)
+        ck.count()
+        ck.dist('template-instantiation')
+        rp = {'kind': 'spec', 'files': {'d.h': text}, 'cmd': 'interrogate -c -fnames -od d.in d.h; read the element types'}
+        if p.returncode != 0:
+            ck.spec_failure('reject:template-instantiation', 'interrogate fails: ' + p.stdout[-200:], rp)
+            continue
+        db = dbfile.load(os.path.join(wd, 'tpl.in'), b['src'])
+        et = {e['scoped_name']: db['types'][e['type']]['true_name'] for e in db['elements'].values()}
+        want = {'Buf< %d >::data' % n: '%s [%d]' % (tp, n), 'Arr< %s, %d >::items' % (tp, m): '%s [%d]' % (tp, m)}
+        got = {k: v for k, v in et.items() if k in want}
+        if got != want:
+            ck.spec_failure('print:array-bound-from-template-argument', 'member types of the instantiations: %s, expected %s' % (et, want), rp)
+        else:
+            ck.nontrivial('tpl%d' % i)
+
     # ---------------- stream C: the shipped stub headers that g++ accepts must parse ---------------------
     pinc = os.path.join(b['src'], 'parser-inc')
     n_inc = 0
